@@ -36,6 +36,8 @@ func (o Op12) String() string {
 		return "SetSearch(u.Search())"
 	case "setter":
 		return spec.SetterNames[o.Setter] + "=" + quote(string(o.Value))
+	case "clone-sp":
+		return "u.Clone().SearchParams()." + o.SP.String()
 	case "swap-list":
 		return "u.SetSearchParams(u.SearchParams().Clone())"
 	case "lend-list":
@@ -269,6 +271,20 @@ func Check12(c Case12, r *core.Rec) {
 					return
 				}
 			}
+		case "clone-sp":
+			// a list operation on a Clone of the URL is not an operation on this URL: its query, and (end
+			// of the step) every handle of its list, are what they were
+			if len(handles) == 0 {
+				continue
+			}
+			q0, h0 := u.Query(), u.Href(false)
+			cl := u.Clone()
+			applyImpl(cl.SearchParams(), o.SP)
+			if q := u.Query(); q != q0 || u.Href(false) != h0 {
+				r.Failf("after %s: an operation on a clone's list changed this URL's Query() from %s to %s (Href %s)", hist12(c, i), quote(q0), quote(q), quote(u.Href(false)))
+				return
+			}
+			r.Class("op:clone-sp")
 		case "swap-list", "lend-list":
 			// SetSearchParams is outside the statement's operations, so nothing is asked about what it
 			// does to handles obtained before it: they are dropped, and the URL's own list is fetched
@@ -378,11 +394,15 @@ func Gen12(t *rapid.T) Case12 {
 			c.Ops = append(c.Ops, Op12{Kind: "fetch"})
 		}
 		for i, n := 0, rapid.IntRange(1, 4).Draw(t, "post"); i < n; i++ {
-			switch rapid.IntRange(0, 5).Draw(t, "postkind") {
+			switch rapid.IntRange(0, 6).Draw(t, "postkind") {
 			case 0:
 				c.Ops = append(c.Ops, genSetSearch())
 			case 1:
 				c.Ops = append(c.Ops, genSetter())
+			case 6:
+				o := genSP()
+				o.Kind = "clone-sp"
+				c.Ops = append(c.Ops, o)
 			default:
 				o := genSP()
 				o.Handle = 0
@@ -404,7 +424,12 @@ func Gen12(t *rapid.T) Case12 {
 		case k <= 7:
 			c.Ops = append(c.Ops, genSetSearch())
 		case k == 8 && rapid.IntRange(0, 1).Draw(t, "listop") == 0:
-			c.Ops = append(c.Ops, Op12{Kind: gen.Pick(t, "listopKind", []string{"swap-list", "lend-list"})})
+			o := Op12{Kind: gen.Pick(t, "listopKind", []string{"swap-list", "lend-list", "clone-sp", "clone-sp"})}
+			if o.Kind == "clone-sp" {
+				o = genSP()
+				o.Kind = "clone-sp"
+			}
+			c.Ops = append(c.Ops, o)
 		default:
 			c.Ops = append(c.Ops, genSetter())
 		}
@@ -426,7 +451,7 @@ func genMediumQuery(t *rapid.T) string {
 
 var P12 = core.Register(core.Prop[Case12]{
 	ID: "C12",
-	Rule: "a start URL (special / non-special, with and without query and fragment, opaque path; a quarter of the cases obtained by resolving a reference against — or cloning — a URL whose SearchParams() was or was not called before) and 1..12 steps: fetch a SearchParams handle (at any point, repeatedly), a list operation through any live handle, SetSearch(v) (incl. '', '?', delimiters, '#', tab), another setter (hash, pathname, host, protocol, username, port), SetSearchParams with a Clone of the URL's own list (which then is its list), another URL being handed this URL's list; " +
+	Rule: "a start URL (special / non-special, with and without query and fragment, opaque path; a quarter of the cases obtained by resolving a reference against — or cloning — a URL whose SearchParams() was or was not called before) and 1..12 steps: fetch a SearchParams handle (at any point, repeatedly), a list operation through any live handle, SetSearch(v) (incl. '', '?', delimiters, '#', tab), another setter (hash, pathname, host, protocol, username, port), SetSearchParams with a Clone of the URL's own list (which then is its list), another URL being handed this URL's list, a list operation on a Clone of the URL (not an operation on this URL: query and handles stay); lists of 9..40 parameters in an eighth of the starts and setter values, and the names a replaced list held stay among the names looked up; " +
 		"oracle, after every step: I1 after a list mutation Query / Search / the query part of Href equal the list's serialization, and so does the list u.SearchParams() returns then; I2 after SetSearch every live handle and a fresh one equal the form-urlencoded parse of the new query (empty after clearing); I3 other setters leave the query and the list alone; I4 all live handles show the same expected list (Get/GetAll/Has for all names in play + String); " +
 		"non-trivial = the history has a SetSearch followed by a list mutation through a handle obtained before it; distinct by hash of the history",
 	Gen:   Gen12,
